@@ -1,8 +1,9 @@
 \* thorough tier, message-shaped entry points: strength 3
 SPECIFICATION GenSpec
 CONSTANTS
-  EPs = {"station.ingest"}
+  EPs = {"regproc"}
   Strength = 3
+  Thin = TRUE
   MissingGuards = {}
   Modes = {"design", "sample"}
   NSample = 20000
